@@ -33,7 +33,7 @@ out = ["## 11. Seeded changes (independent sub-agents; only the property text an
        "| id | property | files | needs in order to manifest | confirmed | result | signatures / notes |",
        "|---|---|---|---|---|---|---|"]
 for r in rows:
-    out.append("| %s | %s | %s | %s | %s | %s | %s %s |" % r)
+    out.append("| %s | %s | %s | %s | %s | %s | %s %s |" % tuple(str(x).replace("|", "\\|") for x in r))
 n = len(rows); c = sum(1 for r in rows if r[5] == "caught")
 out += ["", "Totals: %d seeded changes recorded, %d caught by the quick tier of their property." % (n, c), ""]
 open(os.path.join(VERIF, "design.d", "ZZ-seeded.md"), "w").write("\n".join(out))
